@@ -227,6 +227,17 @@ def p_abandon_only_staging(sw, f):
     return None
 
 
+def p_abandon_removes_staging(sw, f):
+    """C13: when the drop of an un-finished transaction has returned, its staging file is gone (the abandoned bytes do not
+    stay behind in staging/ - not until 'later', not until the next clean close: a crash in between would keep them)"""
+    if f.status != "returned":
+        return None
+    if not any(e["kind"] == "io" and e["op"] == "unlink" and (e.get("path") or ("",))[0] == "staging" and e["outcome"] == "ok" for e in f.trace):
+        return ("abandoned-staging-left", "the transaction was dropped without finish and its staging file was not unlinked by the drop",
+                dict(pred="abandon_removes_staging"))
+    return None
+
+
 _EXPLORE_CACHE = {}
 
 
